@@ -44,6 +44,68 @@ Lemma kind_ack pn : bit pn -> kind [Z.lor 162 pn] = 1. Proof. intros [-> | ->]; 
 Lemma kind_iblock k cmd pn off : bit pn -> kind (iblock k cmd pn off) = 1.
 Proof. intros [-> | ->]; unfold iblock, pfb_at, kind; destruct (more_at k cmd off); reflexivity. Qed.
 
+(* chained blocks needed for L bytes in blocks of m: ceil(L/m) - 1 *)
+Definition nchain (m L : Z) : Z := if L <=? 0 then 0 else (L - 1) / m.
+Lemma nchain_nonneg m L : 0 < m -> 0 <= nchain m L.
+Proof. intro H. unfold nchain. destruct (L <=? 0) eqn:E; [lia|]. apply Z.div_pos; lia. Qed.
+Lemma nchain_step m L : 0 < m -> m < L -> nchain m (L - m) = nchain m L - 1.
+Proof.
+  intros Hm HL. unfold nchain. replace (L - m <=? 0) with false by lia. replace (L <=? 0) with false by lia.
+  replace (L - 1) with ((L - m - 1) + 1 * m) by lia. rewrite Z.div_add by lia. lia.
+Qed.
+
+Lemma next_iblock_full kc b data ib rest : 0 < cmiu kc -> next_iblock kc b data = (ib, rest) -> rest <> [] ->
+  len ib = 1 + cmiu kc /\ len data = cmiu kc + len rest.
+Proof.
+  intros Hc H Hr. unfold next_iblock in H. inversion H; subst; clear H.
+  assert (Hd : cmiu kc < len data).
+  { destruct (Z_lt_le_dec (cmiu kc) (len data)) as [|Hle]; [assumption|]. exfalso. apply Hr.
+    unfold drop. apply skipn_all2. unfold len in Hle. lia. }
+  rewrite len_cons, len_drop by lia. unfold len, take. rewrite firstn_length. unfold len in Hd. lia.
+Qed.
+
+Lemma toggle_neq pn : (toggle pn =? pn) = false.
+Proof. unfold toggle. apply Z.eqb_neq. intro H. pose proof (Z.mod_pos_bound (pn + 1) 2 ltac:(lia)). lia. Qed.
+
+Lemma picc_emit_weight c0 blk c' r : picc_emit c0 blk = (c', r) ->
+  wtx_weight c' <= plan_weight (plan c0) .
+Proof.
+  unfold picc_emit, wtx_weight. destruct (plan c0) as [|ws pl]; cbn [tl].
+  - intro H; inversion H; subst; cbn [plan pend plan_weight fold_right]. lia.
+  - destruct ws as [|w ws']; intro H; inversion H; subst; cbn [plan pend]; rewrite plan_weight_cons;
+      [cbn [len length Z.of_nat] | rewrite len_cons]; pose proof (plan_weight_nonneg pl); lia.
+Qed.
+
+(* whatever block the card absorbs, the number of S(WTX) responses it still expects does not grow *)
+Lemma picc_absorb_weight app kc c blk c' r : picc_absorb app kc c blk = (c', r) -> wtx_weight c' <= wtx_weight c.
+Proof.
+  assert (Hpw : plan_weight (plan c) <= wtx_weight c).
+  { unfold wtx_weight. destruct (pend c) as [[[w ws] b]|]; [pose proof (len_nonneg ws)|]; lia. }
+  unfold picc_absorb. destruct blk as [|pcb inf]; [intro H; inversion H; lia|].
+  destruct (len (pcb :: inf) + 2 >? cfsc kc); [intro H; inversion H; lia|].
+  destruct (Z.land pcb 238 =? 2).
+  - destruct (negb (Z.land pcb 16 =? 0)).
+    + intro H. apply picc_emit_weight in H. cbn [plan] in H. lia.
+    + destruct (next_iblock kc (flip (bn c)) (app (len (execs c)) (rxbuf c ++ inf))) as [ib rest].
+      intro H. apply picc_emit_weight in H. cbn [plan] in H. lia.
+  - destruct (Z.land pcb 238 =? 162).
+    + destruct (negb (len inf =? 0)); [intro H; inversion H; lia|].
+      destruct (Z.land pcb 1 =? bn c).
+      * destruct (last c); intro H; inversion H; lia.
+      * destruct (negb (Z.land pcb 16 =? 0)).
+        -- destruct (pend c) eqn:Ep; intro H; inversion H; subst; [lia|]. unfold wtx_weight. cbn [plan pend]. rewrite Ep. lia.
+        -- destruct (pend c) eqn:Ep; [intro H; inversion H; lia|].
+           destruct (txrest c) eqn:Et; [intro H; inversion H; lia|].
+           destruct (next_iblock kc (flip (bn c)) (z :: b)) as [ib rest].
+           intro H. apply picc_emit_weight in H. cbn [plan] in H. lia.
+    + destruct (pcb =? 242); [|intro H; inversion H; lia].
+      destruct (pend c) as [[[w ws] nxt]|] eqn:Ep; [|intro H; inversion H; lia].
+      destruct inf as [|x [|y t]]; try (intro H; inversion H; lia).
+      destruct (x =? w); [|intro H; inversion H; lia].
+      unfold wtx_weight. rewrite Ep.
+      destruct ws as [|w2 ws']; intro H; inversion H; subst; cbn [plan pend]; [cbn [len length Z.of_nat] | rewrite len_cons]; lia.
+Qed.
+
 Section SyncProof.
 Variable app : Z -> bytes -> bytes.
 Variable k : cfg.
@@ -892,6 +954,286 @@ Proof.
   intros (Hb & _) Hc. unfold pcd_start.
   replace (miu k =? 0) with false by lia. replace ((len cmd <=? 0) || (miu k <? 0)) with false by lia.
   unfold live_ph. cbn [ph]. split; [lia|]. rewrite is_nak_iblock by assumption. discriminate.
+Qed.
+
+(* ---------------------------------------------------------------- S(WTX) requests and chained blocks still to come *)
+(* [rho]: what the reader's n_extra counter can still grow by from this state without further faults:
+   S(WTX) responses the card still expects (less the one the reader is just echoing) + chained response blocks.
+   [evn] is the increment of n_extra in a step (Model: pcd_absorb_x).  One faulty round adds at most 1
+   (the card repeats an S(WTX) request the reader has already counted). *)
+Definition echo (d : bytes) : Z := 1 - kind d.
+Definition pi_ph (p : pcd) : Z :=
+  match ph p with
+  | PSend _ _ d => nchain (cmiu kc) (len R) - echo d
+  | PRecv _ d rsp => nchain (cmiu kc) (len R - len rsp) - echo d
+  | _ => 0
+  end.
+Definition rho (p : pcd) (c : picc) : Z := wtx_weight c + pi_ph p.
+Definition evn (p : pcd) (a : aresult) (p' : pcd) : Z :=
+  if wtx_event k p a then 1 else if chain_event p p' then 1 else 0.
+
+Lemma echo_le d : 0 <= echo d <= 1. Proof. unfold echo. pose proof (kind_le d). lia. Qed.
+Lemma nchR : 0 <= nchain (cmiu kc) (len R). Proof. apply nchain_nonneg, Hcmiu. Qed.
+
+Lemma evn_ack pn f pn' f' : evn (mkp pn f) (ARx [Z.lor 162 pn]) (mkp pn' f') = if chain_event (mkp pn f) (mkp pn' f') then 1 else 0.
+Proof. reflexivity. Qed.
+
+Lemma absorb_B_extra pn off i d c : bit pn -> more_at k cmd off = true -> CardB pn off c ->
+  let p := mkp pn (PSend off i d) in let p' := pcd_absorb k cmd p (ARx (last c)) in
+  pi_ph p' + evn p (ARx (last c)) p' <= nchain (cmiu kc) (len R).
+Proof.
+  intros Hb Hm (Hbn & Hrx & Htx & Hex & Hem). cbv zeta.
+  destruct (emitted_core _ _ Hem) as [[Hl Hp] | (w & ws & Hl & Hp)]; rewrite Hl.
+  - rewrite send_rx_ack by assumption. unfold evn, wtx_event, chain_event, is_recv, pi_ph, echo. cbn [ph mkp andb].
+    rewrite kind_iblock by (apply flip_bit, Hb). lia.
+  - rewrite send_rx_wtx by assumption. unfold evn, wtx_event, pi_ph, echo. cbn [ph mkp]. rewrite Hf1, kind_wtx.
+    change (is_wtx 242) with true. cbn [andb]. lia.
+Qed.
+
+Lemma iblock_not_wtx ch pn : bit ch -> bit pn -> is_wtx (Z.lor (Z.lor 2 (16 * ch)) pn) = false.
+Proof. intros [-> | ->] [-> | ->]; reflexivity. Qed.
+Lemma wtx_event_iblock p ch pn chunk : bit ch -> bit pn -> wtx_event k p (ARx (Z.lor (Z.lor 2 (16 * ch)) pn :: chunk)) = false.
+Proof. intros Hc Hb. unfold wtx_event. destruct chunk; [reflexivity|]. rewrite iblock_not_wtx by assumption. reflexivity. Qed.
+Lemma flip_eqb pn : bit pn -> (flip pn =? pn) = false.
+Proof. intros [-> | ->]; reflexivity. Qed.
+
+Lemma absorb_C_extra pn off i d c : bit pn -> more_at k cmd off = false -> CardC pn c ->
+  let p := mkp pn (PSend off i d) in let p' := pcd_absorb k cmd p (ARx (last c)) in
+  pi_ph p' + evn p (ARx (last c)) p' <= nchain (cmiu kc) (len R).
+Proof.
+  intros Hb Hm (ib & rest & Hbn & Hrx & Hex & Hni & Htx & Hem). cbv zeta. pose proof nchR.
+  destruct (emitted_core _ _ Hem) as [[Hl Hp] | (w & ws & Hl & Hp)]; rewrite Hl.
+  - destruct (next_iblock_spec _ _ _ _ _ Hcmiu Hni) as (ch & chunk & Hch & Hib & Hcr & Hch1 & _ & _).
+    rewrite Hib. rewrite send_rx_iblock by assumption. unfold evn. rewrite wtx_event_iblock by assumption.
+    destruct Hch as [-> | ->]; cbn [Z.eqb Pos.eqb].
+    + unfold chain_event, is_recv, pi_ph. cbn [ph mkp andb]. lia.
+    + assert (Hr : rest <> []) by (apply Hch1; reflexivity).
+      destruct (next_iblock_full _ _ _ _ _ Hcmiu Hni Hr) as [Hli HlR]. rewrite Hib, len_cons in Hli.
+      unfold chain_event, is_recv, pi_ph, echo. cbn [ph mkp pni andb]. rewrite flip_eqb, kind_ack by (try apply flip_bit; assumption).
+      cbn [negb]. replace (len chunk) with (cmiu kc) by lia.
+      rewrite nchain_step; [lia | assumption |]. pose proof (nonnil_len rest Hr). lia.
+  - rewrite send_rx_wtx by assumption. unfold evn, wtx_event, pi_ph, echo. cbn [ph mkp]. rewrite Hf1, kind_wtx.
+    change (is_wtx 242) with true. cbn [andb]. lia.
+Qed.
+
+Lemma absorb_D2_extra pn i d rsp c : bit pn -> CardD2 pn rsp c ->
+  let p := mkp pn (PRecv i d rsp) in let p' := pcd_absorb k cmd p (ARx (last c)) in
+  pi_ph p' + evn p (ARx (last c)) p' <= nchain (cmiu kc) (len R - len rsp).
+Proof.
+  intros Hb (T & ib & rest & Hbn & HT & HR & Hni & Htx & Hrx & Hex & Hem). cbv zeta.
+  assert (HlT : len R - len rsp = len T) by (rewrite (rsp_len_R _ _ HR); lia).
+  pose proof (nchain_nonneg (cmiu kc) (len R - len rsp) Hcmiu).
+  destruct (emitted_core _ _ Hem) as [[Hl Hp] | (w & ws & Hl & Hp)]; rewrite Hl.
+  - destruct (next_iblock_spec _ _ _ _ _ Hcmiu Hni) as (ch & chunk & Hch & Hib & Hcr & Hch1 & _ & _).
+    rewrite Hib. rewrite recv_rx_iblock by assumption. unfold evn. rewrite wtx_event_iblock by assumption.
+    destruct Hch as [-> | ->]; cbn [Z.eqb Pos.eqb].
+    + unfold chain_event, is_recv, pi_ph. cbn [ph mkp andb]. lia.
+    + assert (Hr : rest <> []) by (apply Hch1; reflexivity).
+      destruct (next_iblock_full _ _ _ _ _ Hcmiu Hni Hr) as [Hli HlR]. rewrite Hib, len_cons in Hli.
+      unfold chain_event, is_recv, pi_ph, echo. cbn [ph mkp pni andb]. rewrite flip_eqb, kind_ack by (try apply flip_bit; assumption).
+      cbn [negb]. rewrite len_app. replace (len chunk) with (cmiu kc) by lia.
+      replace (len R - (len rsp + cmiu kc)) with (len T - cmiu kc) by lia. rewrite HlT.
+      rewrite nchain_step; [lia | assumption |]. pose proof (nonnil_len rest Hr). lia.
+  - rewrite recv_rx_wtx by assumption. unfold evn, wtx_event, pi_ph, echo. cbn [ph mkp]. rewrite Hf2, kind_wtx.
+    change (is_wtx 242) with true. cbn [andb]. lia.
+Qed.
+
+(* a faulty round: no increment, the potential grows by at most the echo that was lost *)
+Lemma fault_extra p c c' a : Sync p c -> is_done p = false -> a = ATimeout \/ a = ATxErr ->
+  wtx_weight c' <= wtx_weight c ->
+  rho (pcd_absorb k cmd p a) c' + evn p a (pcd_absorb k cmd p a) <= rho p c + 1.
+Proof.
+  intros HS Hd Ha Hw. pose proof nchR.
+  destruct HS as [pn off i d c Hb Hoff Hdd HA | pn off i d c Hb Hoff Hm HB Hrd | pn off i d c Hb Hoff Hm HC Hrd
+                 | pn i rsp c Hb HD | pn i d rsp c Hb HD Hrd | pn c | pn e c]; try discriminate.
+  1-3: rewrite send_timeout by assumption; unfold rho, evn, wtx_event, chain_event, is_recv, pi_ph; pose proof (echo_le d);
+       destruct Ha as [-> | ->]; destruct (i <=? n_nak k); cbn [ph mkp tagerr andb]; unfold echo in *; rewrite ?kind_nak by assumption; lia.
+  - pose proof (nchain_nonneg (cmiu kc) (len R - len rsp) Hcmiu). pose proof (echo_le [Z.lor 162 pn]).
+    rewrite recv_timeout by assumption; unfold rho, evn, wtx_event, chain_event, is_recv, pi_ph;
+      destruct Ha as [-> | ->]; destruct (i <=? n_ack k); cbn [ph mkp pni tagerr andb]; rewrite ?Z.eqb_refl; cbn [negb];
+      unfold echo in *; rewrite ?kind_ack by assumption; lia.
+  - pose proof (nchain_nonneg (cmiu kc) (len R - len rsp) Hcmiu). pose proof (echo_le d).
+    rewrite recv_timeout by assumption; unfold rho, evn, wtx_event, chain_event, is_recv, pi_ph;
+      destruct Ha as [-> | ->]; destruct (i <=? n_ack k); cbn [ph mkp pni tagerr andb]; rewrite ?Z.eqb_refl; cbn [negb];
+      unfold echo in *; rewrite ?kind_ack by assumption; lia.
+Qed.
+
+(* the block of an echoing reader is exactly the S(WTX) the card waits for *)
+Lemma rdata_echo_weight retry c d c' r pn blk : bit pn -> emitted blk c -> blk <> [] -> bn c = pn ->
+  retry = [Z.lor 178 pn] \/ retry = [Z.lor 162 pn] -> rdata retry c d ->
+  picc_absorb app kc c d = (c', r) -> wtx_weight c' + echo d <= wtx_weight c.
+Proof.
+  intros Hb Hem Hne Hbn Hre Hrd H.
+  destruct (card_answered pn blk c d retry c' r Hb Hem Hne Hbn Hre Hrd H) as (_ & _ & _ & Hw & Hw').
+  unfold echo. pose proof (kind_le d). destruct (Z.eq_dec (kind d) 0) as [E | E]; [specialize (Hw' E); lia | lia].
+Qed.
+
+Lemma round_extra p c ff c' a : Sync p c -> is_done p = false -> air app kc c (pcd_emit p) ff = (c', a) ->
+  rho (pcd_absorb k cmd p a) c' + evn p a (pcd_absorb k cmd p a) <= rho p c + (if is_dd ff then 0 else 1).
+Proof.
+  intros HS Hd Hair. unfold air in Hair. destruct ff as [f1 f2]. cbn [fst snd] in Hair.
+  assert (Hfault : forall c2 a2, a2 = ATimeout \/ a2 = ATxErr -> wtx_weight c2 <= wtx_weight c ->
+            rho (pcd_absorb k cmd p a2) c2 + evn p a2 (pcd_absorb k cmd p a2) <= rho p c + 1)
+    by (intros c2 a2 Ha2 Hw2; apply fault_extra; assumption).
+  destruct f1; [| inversion Hair; subst; cbn [is_dd]; apply Hfault; [left; reflexivity | lia]
+                | inversion Hair; subst; cbn [is_dd]; apply Hfault; [left; reflexivity | lia]].
+  destruct (picc_absorb app kc c (pcd_emit p)) as [c1 r] eqn:E.
+  pose proof (picc_absorb_weight app kc c _ c1 r E) as Hw1.
+  destruct f2; [| destruct r; inversion Hair; subst; cbn [is_dd]; (apply Hfault; [left; reflexivity | assumption])
+                | destruct r; inversion Hair; subst; cbn [is_dd]; (apply Hfault; [first [left; reflexivity | right; reflexivity] | assumption])].
+  cbn [is_dd].
+  (* the fault-free round *)
+  destruct HS as [pn off i d c Hb Hoff Hdd HA | pn off i d c Hb Hoff Hm HB Hrd | pn off i d c Hb Hoff Hm HC Hrd
+                 | pn i rsp0 c Hb HD | pn i d rsp0 c Hb HD Hrd | pn c | pn e c]; try discriminate;
+    cbn [pcd_emit ph mkp] in E.
+  - destruct Hdd as [-> | [-> Hi]].
+    + apply (card_A_iblock pn off c c1 r Hb Hoff HA) in E. destruct E as (Er & Hw & HC'). subst r. inversion Hair; subst c1 a; clear Hair.
+      unfold rho at 2. unfold pi_ph. cbn [ph mkp]. unfold echo. rewrite kind_iblock by assumption.
+      destruct (more_at k cmd off) eqn:Hm.
+      * pose proof (absorb_B_extra pn off i (iblock k cmd pn off) c' Hb Hm HC') as H. cbv zeta in H. unfold rho. lia.
+      * pose proof (absorb_C_extra pn off i (iblock k cmd pn off) c' Hb Hm HC') as H. cbv zeta in H. unfold rho. lia.
+    + destruct (card_A_nak pn off c Hb HA) as (c2 & E2 & HA' & Hw). rewrite E2 in E. inversion E; subst c1 r. inversion Hair; subst c' a; clear Hair.
+      rewrite send_rx_rack_other by assumption. unfold rho, evn, wtx_event, chain_event, is_recv, pi_ph, echo.
+      pose proof nchR.
+      destruct (if fix_rack k then i <=? n_nak k + 1 else true); cbn [ph mkp tagerr andb];
+        rewrite ?kind_iblock, ?kind_nak by assumption; lia.
+  - pose proof E as E'. apply (CardB_step pn off c d c1 r Hb HB Hrd) in E. destruct E as (Er & HB' & _). subst r. inversion Hair; subst c1 a; clear Hair.
+    destruct HB as (Hbn & _ & _ & _ & Hem).
+    pose proof (rdata_echo_weight _ c d c' _ pn _ Hb Hem ltac:(discriminate) Hbn (or_introl eq_refl) Hrd E') as Hwe.
+    pose proof (absorb_B_extra pn off i d c' Hb Hm HB') as H. cbv zeta in H. unfold rho. unfold pi_ph at 2. cbn [ph mkp]. lia.
+  - pose proof E as E'. apply (CardC_step pn c d c1 r Hb HC Hrd) in E. destruct E as (Er & HC' & _). subst r. inversion Hair; subst c1 a; clear Hair.
+    destruct HC as (ib & rest & Hbn & _ & _ & Hni & _ & Hem).
+    pose proof (rdata_echo_weight _ c d c' _ pn _ Hb Hem (next_iblock_nonnil _ _ _ _ Hni) Hbn (or_introl eq_refl) Hrd E') as Hwe.
+    pose proof (absorb_C_extra pn off i d c' Hb Hm HC') as H. cbv zeta in H. unfold rho. unfold pi_ph at 2. cbn [ph mkp]. lia.
+  - apply (card_D1_ack pn rsp0 c c1 r Hb HD) in E. destruct E as (Er & Hw & HD'). subst r. inversion Hair; subst c1 a; clear Hair.
+    pose proof (absorb_D2_extra pn i [Z.lor 162 pn] rsp0 c' Hb HD') as H. cbv zeta in H.
+    unfold rho. unfold pi_ph at 2. cbn [ph mkp]. unfold echo. rewrite kind_ack by assumption. lia.
+  - pose proof E as E'. apply (CardD2_step pn rsp0 c d c1 r Hb HD Hrd) in E. destruct E as (Er & HD' & _). subst r. inversion Hair; subst c1 a; clear Hair.
+    destruct HD as (T & ib & rest & Hbn & _ & _ & Hni & _ & _ & _ & Hem).
+    pose proof (rdata_echo_weight _ c d c' _ pn _ Hb Hem (next_iblock_nonnil _ _ _ _ Hni) Hbn (or_intror eq_refl) Hrd E') as Hwe.
+    pose proof (absorb_D2_extra pn i d rsp0 c' Hb HD') as H. cbv zeta in H. unfold rho. unfold pi_ph at 2. cbn [ph mkp]. lia.
+Qed.
+
+(* ---------------------------------------------------------------- the reader with the n_extra budget (HEAD) *)
+Lemma rho_nonneg p c : Sync p c -> 0 <= rho p c.
+Proof.
+  intro HS. unfold rho, pi_ph, echo. pose proof nchR.
+  assert (Hrd : forall retry pn c d, bit pn -> retry = [Z.lor 178 pn] \/ retry = [Z.lor 162 pn] -> rdata retry c d ->
+            1 - kind d <= wtx_weight c).
+  { intros retry pn c0 d Hb Hre [-> | w ws nxt -> Hp].
+    - pose proof (wtx_weight_nonneg c0). destruct Hre as [-> | ->]; [rewrite kind_nak | rewrite kind_ack]; try assumption; lia.
+    - rewrite kind_wtx. unfold wtx_weight. rewrite Hp. pose proof (plan_weight_nonneg (plan c0)). pose proof (len_nonneg ws). lia. }
+  destruct HS as [pn off i d c Hb Hoff Hdd HA | pn off i d c Hb Hoff Hm HB Hrd' | pn off i d c Hb Hoff Hm HC Hrd'
+                 | pn i rsp c Hb HD | pn i d rsp c Hb HD Hrd' | pn c | pn e c]; cbn [ph mkp tagerr];
+    pose proof (wtx_weight_nonneg c).
+  - destruct Hdd as [-> | [-> _]]; [rewrite kind_iblock | rewrite kind_nak]; try assumption; lia.
+  - pose proof (Hrd _ pn c d Hb (or_introl eq_refl) Hrd'). lia.
+  - pose proof (Hrd _ pn c d Hb (or_introl eq_refl) Hrd'). lia.
+  - pose proof (nchain_nonneg (cmiu kc) (len R - len rsp) Hcmiu). rewrite kind_ack by assumption. lia.
+  - pose proof (nchain_nonneg (cmiu kc) (len R - len rsp) Hcmiu). pose proof (Hrd _ pn c d Hb (or_intror eq_refl) Hrd'). lia.
+  - lia.
+  - lia.
+Qed.
+
+Section Budget.
+Variable mx : option Z.
+
+Lemma absorb_x_shape x a :
+  let p' := pcd_absorb k cmd (xp x) a in let x' := pcd_absorb_x k mx cmd x a in
+  nx x' = nx x + evn (xp x) a p' /\
+  (xp x' = p' \/ (over mx (nx x') = true /\ exists pn', xp x' = mkp pn' (tagerr E_PROTOCOL))).
+Proof.
+  cbv zeta. unfold pcd_absorb_x, evn.
+  destruct (wtx_event k (xp x) a).
+  - cbn [nx xp]. split; [reflexivity|]. destruct (over mx (nx x + 1)) eqn:E; [right; split; [first [exact E | reflexivity] | eexists; reflexivity] | left; reflexivity].
+  - destruct (chain_event (xp x) (pcd_absorb k cmd (xp x) a)).
+    + cbn [nx xp]. split; [reflexivity|]. destruct (over mx (nx x + 1)) eqn:E; [right; split; [first [exact E | reflexivity] | eexists; reflexivity] | left; reflexivity].
+    + cbn [nx xp]. split; [lia | left; reflexivity].
+Qed.
+
+Lemma evn_range p a p' : 0 <= evn p a p' <= 1.
+Proof. unfold evn. destruct (wtx_event k p a); [lia|]. destruct (chain_event p p'); lia. Qed.
+
+Lemma mu_nonneg p c : Sync p c -> 0 <= mu p c.
+Proof. intro HS. destruct (is_done p) eqn:Hd; [rewrite mu_done by assumption; lia | pose proof (mu_pos p c HS Hd); lia]. Qed.
+
+Lemma roundx_sync x c ff : Sync (xp x) c -> is_done (xp x) = false ->
+  let '(x', c') := roundx app k mx kc cmd (x, c) ff in
+  Sync (xp x') c' /\ mu (xp x') c' + 1 <= mu (xp x) c /\ nx x <= nx x' /\
+  (mx = None -> nx x' + rho (xp x') c' <= nx x + rho (xp x) c + (if is_dd ff then 0 else 1)).
+Proof.
+  intros HS Hd. pose proof (round_sync (xp x) c ff HS Hd) as Hr. unfold round in Hr. rewrite Hd in Hr.
+  unfold roundx. rewrite Hd.
+  destruct (air app kc c (pcd_emit (xp x)) ff) as [c' a] eqn:Ea.
+  destruct Hr as [HS' Hmu].
+  pose proof (round_extra (xp x) c ff c' a HS Hd Ea) as Hex.
+  destruct (absorb_x_shape x a) as [Hn Hx]. cbv zeta in Hn, Hx.
+  pose proof (evn_range (xp x) a (pcd_absorb k cmd (xp x) a)).
+  split; [|split; [|split; [lia|]]].
+  - destruct Hx as [-> | (_ & pn' & ->)]; [exact HS'|]. apply S_Err. eapply Sync_exec; eassumption.
+  - destruct Hx as [-> | (_ & pn' & ->)]; [exact Hmu|]. pose proof (mu_nonneg _ _ HS'). rewrite (mu_done (mkp pn' (tagerr E_PROTOCOL)) c') by reflexivity. lia.
+  - intros ->. destruct Hx as [-> | (Ho & _)]; [lia | discriminate].
+Qed.
+
+Lemma runx_done fuel x c sc tr r : ph (xp x) = PDone r ->
+  runx app fuel k mx kc cmd x c sc tr = ({| o_res := r; o_pni := pni (xp x); o_card := c; o_blocks := rev tr |}, nx x).
+Proof. intro H. destruct fuel; cbn [runx]; rewrite H; reflexivity. Qed.
+Lemma runx_zero x c sc tr : is_done (xp x) = false ->
+  runx app 0 k mx kc cmd x c sc tr = ({| o_res := Hang; o_pni := pni (xp x); o_card := c; o_blocks := rev tr |}, nx x).
+Proof. unfold is_done. intro H. cbn [runx]. destruct (ph (xp x)); try discriminate; reflexivity. Qed.
+Lemma runx_step f x c sc tr : is_done (xp x) = false ->
+  runx app (S f) k mx kc cmd x c sc tr =
+  let ff := match sc with [] => (FD, FD) | y :: _ => y end in
+  let '(x', c') := roundx app k mx kc cmd (x, c) ff in
+  runx app f k mx kc cmd x' c' (tl sc) (pcd_emit (xp x) :: tr).
+Proof. unfold is_done. intro H. cbn [runx]. destruct (ph (xp x)); try discriminate; reflexivity. Qed.
+
+Lemma runx_sync fuel : forall x c sc tr, Sync (xp x) c -> Forall blk_ok (rev tr) ->
+  let o := fst (runx app fuel k mx kc cmd x c sc tr) in
+  Forall blk_ok (o_blocks o) /\ exec_ok (o_card o) /\
+  ((o_res o = Hang /\ Z.of_nat fuel < mu (xp x) c) \/
+   final_ok {| o_res := o_res o; o_pni := o_pni o; o_card := o_card o; o_blocks := [] |}).
+Proof.
+  induction fuel as [|f IH]; intros x c sc tr HS Htr; cbv zeta.
+  - destruct (is_done (xp x)) eqn:Hd.
+    + destruct (is_done_ph _ Hd) as [r Hr]. rewrite (runx_done 0 x c sc tr r Hr). cbn [fst o_res o_pni o_card o_blocks].
+      split; [assumption|]. split; [eapply Sync_exec; eassumption|]. right. eapply sync_done_final; eassumption.
+    + rewrite runx_zero by assumption. cbn [fst o_res o_pni o_card o_blocks].
+      split; [assumption|]. split; [eapply Sync_exec; eassumption|]. left. split; [reflexivity|].
+      pose proof (mu_pos _ c HS Hd). lia.
+  - destruct (is_done (xp x)) eqn:Hd.
+    + destruct (is_done_ph _ Hd) as [r Hr]. rewrite (runx_done (S f) x c sc tr r Hr). cbn [fst o_res o_pni o_card o_blocks].
+      split; [assumption|]. split; [eapply Sync_exec; eassumption|]. right. eapply sync_done_final; eassumption.
+    + rewrite runx_step by assumption. cbv zeta.
+      pose proof (roundx_sync x c (match sc with [] => (FD, FD) | y :: _ => y end) HS Hd) as Hr.
+      destruct (roundx app k mx kc cmd (x, c) (match sc with [] => (FD, FD) | y :: _ => y end)) as [x' c'].
+      destruct Hr as (HS' & Hmu & _).
+      specialize (IH x' c' (tl sc) (pcd_emit (xp x) :: tr) HS'
+                    (Forall_rev_cons _ _ _ Htr (sync_emit_ok _ c HS Hd))).
+      cbv zeta in IH. destruct IH as (H1 & H2 & H3).
+      split; [assumption|]. split; [assumption|].
+      destruct H3 as [[Hh Hlt] | Hfin]; [left; split; [assumption | lia] | right; assumption].
+Qed.
+End Budget.
+
+(* without budget the counter only counts: at the end it is at most what the card announced + one per faulty round *)
+Lemma runx_count fuel : forall x c sc tr, Sync (xp x) c ->
+  snd (runx app fuel k None kc cmd x c sc tr) <= nx x + rho (xp x) c + faults sc.
+Proof.
+  induction fuel as [|f IH]; intros x c sc tr HS; pose proof (rho_nonneg _ _ HS); pose proof (faults_nonneg sc).
+  - destruct (is_done (xp x)) eqn:Hd.
+    + destruct (is_done_ph _ Hd) as [r Hr]. rewrite (runx_done None 0 x c sc tr r Hr). cbn [snd]. lia.
+    + rewrite runx_zero by assumption. cbn [snd]. lia.
+  - destruct (is_done (xp x)) eqn:Hd.
+    + destruct (is_done_ph _ Hd) as [r Hr]. rewrite (runx_done None (S f) x c sc tr r Hr). cbn [snd]. lia.
+    + rewrite runx_step by assumption. cbv zeta.
+      pose proof (roundx_sync None x c (match sc with [] => (FD, FD) | y :: _ => y end) HS Hd) as Hr.
+      destruct (roundx app k None kc cmd (x, c) (match sc with [] => (FD, FD) | y :: _ => y end)) as [x' c'].
+      destruct Hr as (HS' & _ & _ & Hrho). specialize (Hrho eq_refl).
+      specialize (IH x' c' (tl sc) (pcd_emit (xp x) :: tr) HS').
+      assert (faults (tl sc) + (if is_dd (match sc with [] => (FD, FD) | y :: _ => y end) then 0 else 1) = faults sc)
+        by (destruct sc as [|y t]; cbn [tl faults is_dd]; [reflexivity | destruct (is_dd y); lia]).
+      lia.
 Qed.
 End SyncProof.
 
